@@ -34,31 +34,16 @@ theorem bigThreshold : (Generated.bigThresholdOp, Generated.bigThreshold) = (">"
 /-- the 16-bit step guard (`buildStep`: `!c.opt.inner && decide (ws - o.fb > 0xffff)`; positions / 4) -/
 theorem stepGuard :
     Generated.stepGuard = "!*opt.InnerPrefix && (wordStart-o.fromKeyBit)>>2 > 0xffff" := rfl
-/-- `Slim.encStep` / `Slim.decStep` mirror these bodies (step in bits = 4 × half-bytes) -/
-theorem encStepSrc :
-    Generated.encStepSrc = "{ step >>= 2 return []byte{byte(step >> 8), byte(step & 0xff)} }" := rfl
-theorem decStepSrc :
-    Generated.decStepSrc = "{ step := int32(bs[0])<<8 | int32(bs[1]) return step << 2 }" := rfl
 /-- the comparator of `sortedBMCounts` (`Slim.insertSorted`: count desc, bitmap desc) -/
 theorem bmCountOrder : Generated.bmCountOrder =
     "{ if ss[i].cnt == ss[j].cnt { return ss[i].bitmap17 > ss[j].bitmap17 } return ss[i].cnt > ss[j].cnt }" := rfl
 
-/-! ### queries -/
-/-- `labelIdxOfKey` mirrors this body -/
-theorem getLabelIdxOfKeySrc : Generated.getLabelIdxOfKeySrc =
-    "{ ithBit := int32(0) if keyBitIdx < qr.keyBitLen { if qr.wordSize == bigWordSize { ithBit = 1 + int32(qr.key[keyBitIdx>>3]) } else { b := qr.key[keyBitIdx>>3] if keyBitIdx&7 < 4 { b >>= 4 } b &= 0xf ithBit = 1 + int32(b) } } return ithBit }" := rfl
+/-! ### queries (the small pure functions `encStep`, `decStep`, `getLabelIdxOfKey`, `GetI8..64` are tied
+    SEMANTICALLY in SlimProps/BridgeSem.lean: translated by harness/cmd/extract/translate.go, proved equal to
+    the model's definitions for all arguments) -/
 /-- the refusal guard of `getGEPath` (`Slim.view.scanOK`) -/
 theorem scanGuard : Generated.scanGuard =
     "st.inner.InnerPrefixes == nil || st.inner.InnerPrefixes.PositionBM == nil || st.inner.LeafPrefixes == nil" := rfl
-/-- typed getters (`Slim.getInt` with w = 1, 2, 4, 8; little endian, sign by the Go conversion) -/
-theorem GetI8Src : Generated.GetI8Src =
-    "{ eqID := st.GetID(key) if eqID == -1 { return 0, false } ith, _ := st.getLeafIndex(eqID) v := int8(st.inner.Leaves.Bytes[ith]) return v, true }" := rfl
-theorem GetI16Src : Generated.GetI16Src =
-    "{ eqID := st.GetID(key) if eqID == -1 { return 0, false } ith, _ := st.getLeafIndex(eqID) stIdx := ith << 1 b := st.inner.Leaves.Bytes[stIdx : stIdx+2] v := int16(b[0]) | int16(b[1])<<8 return v, true }" := rfl
-theorem GetI32Src : Generated.GetI32Src =
-    "{ eqID := st.GetID(key) if eqID == -1 { return 0, false } ith, _ := st.getLeafIndex(eqID) stIdx := ith << 2 b := st.inner.Leaves.Bytes[stIdx : stIdx+4] v := int32(b[0]) | int32(b[1])<<8 | int32(b[2])<<16 | int32(b[3])<<24 return v, true }" := rfl
-theorem GetI64Src : Generated.GetI64Src =
-    "{ eqID := st.GetID(key) if eqID == -1 { return 0, false } ith, _ := st.getLeafIndex(eqID) stIdx := ith << 3 b := st.inner.Leaves.Bytes[stIdx : stIdx+8] v := int64(b[0]) | int64(b[1])<<8 | int64(b[2])<<16 | int64(b[3])<<24 | int64(b[4])<<32 | int64(b[5])<<40 | int64(b[6])<<48 | int64(b[7])<<56 return v, true }" := rfl
 
 /-! ### package index (`Index.get` / `Index.rangeGet` / `Index.new`) -/
 theorem indexGetCalls : Generated.indexGetCalls = ["si.SlimTrie.Get", "si.DataReader.Read"] := rfl
